@@ -49,7 +49,45 @@ func mutate(r *prng.Rand, data []byte, spans []refcodec.Span, foreign []byte) ([
 		return &spans[cand[r.Intn(len(cand))]]
 	}
 	for try := 0; try < 8; try++ {
-		switch r.Intn(14) {
+		switch r.Intn(15) {
+		case 14: // lies that agree with each other: a count (or string length) announces much
+			// more than is there AND every length prefix of the records around it announces
+			// enough room for it, so that no "does it fit in what the enclosing record says"
+			// test can tell; what follows the count is kept, cut short, or absent
+			cs := pickSpan(refcodec.SCount, refcodec.SStrLen)
+			if cs == nil {
+				continue
+			}
+			big := []uint32{1 << 12, 1 << 16, 1 << 20, 1 << 22, 1 << 24, 1 << 26}[r.Intn(6)]
+			room := []uint32{1 << 28, 1 << 30, 1<<31 - 1, 1<<32 - 1}[r.Intn(4)]
+			if r.Bool() {
+				room = big*uint32(r.Range(1, 40)) + uint32(r.Intn(64))
+			}
+			n := 0
+			for _, sp := range spans {
+				if sp.Kind != refcodec.SBodyLen && sp.Kind != refcodec.SUnionLen {
+					continue
+				}
+				old := getU32(out, sp.Start)
+				extra := 0
+				if sp.Kind == refcodec.SUnionLen {
+					extra = 1
+				}
+				if sp.Start+4 <= cs.Start && cs.Start < sp.Start+4+extra+int(old) {
+					putU32(out, sp.Start, room)
+					n++
+				}
+			}
+			putU32(out, cs.Start, big)
+			switch r.Intn(3) {
+			case 0:
+				out = out[:cs.Start+4]
+			case 1:
+				if rest := len(out) - cs.Start - 4; rest > 0 {
+					out = out[:cs.Start+4+r.Intn(rest)]
+				}
+			}
+			return out, fmt.Sprintf("lies-agree:%s@%d:%d/%d:%d", cs.Kind, cs.Start, big, room, n)
 		case 13: // EVERY length prefix of a message or union collapses to (next to) nothing:
 			// records that claim to be empty but are followed by what was their content
 			n := 0
